@@ -441,6 +441,9 @@ def run(ctx):
                     (literal(p.atoms[-1][2], p.atoms[-1][4], p.atoms[-1][5]) or (None, False))[1]:
                 # the branch that leads to this `return false` was taken because the two operands AGREE
                 bad = bad or "`return false` is decided by `%s` being equal in both operands" % literal(p.atoms[-1][2], p.atoms[-1][4], p.atoms[-1][5])[0][:60]
+            elif cv == 0 and not mism and lits and not any(a[0] == "truth" for a in p.atoms if a[0] == "truth" and a[2] is False and "isValid" in a[1]):
+                # every comparison on this path found the operands to agree, and yet the answer is `different`
+                bad = bad or "a path on which every compared part agrees (%s) returns false" % ", ".join(sorted({x[0][:30] for x in lits}))[:120]
             elif cv is None:
                 li = expr_literal(v)
                 if li is not None and not li[1]:
